@@ -66,6 +66,18 @@ def nt_c18(e):
     return e["op"] == "Filter" and e["a"]["clause"].get("cmp") in ("like", "ilike")
 
 
+def nt_c12(e):
+    return e["op"] == "ReadCSV" and len(e["a"]["doc"]) > 4
+
+
+def nt_c13(e):
+    return (e["op"] == "ReadCSV" and e["a"]["rt"] >= 0) or e["op"] == "ToCSV"
+
+
+def nt_c14(e):
+    return e["op"] in ("ToJSON", "ReadJSON") and len(e.get("bytes", e["a"].get("doc", []))) > 2
+
+
 def nt_c01(e):
     return len(e.get("reobs", [])) >= 2
 
@@ -85,6 +97,39 @@ TV_NOTE = ("Trusted: TLC and the CommunityModules overrides; the harness encoder
 NOT_APPLICABLE = {}
 
 PROPS = {
+    "C09": dict(level="model_checking", nontrivial=nt_c09,
+                text="Every member of random families of derived frames is observed through Len, typed views (ItemAt and, in a second pass, Slice()), ToCSV, ToJSON and String() on the real "
+                     "library; TLC compares each with the specification's own copy of the frame: view cells = the column's cells; the CSV bytes are split by the specification's RFC 4180 "
+                     "denotation (Csv.tla) and must give header + strconv texts; the JSON bytes are recognised and decoded by JsonG.tla and must give the keys in column order and the cells; "
+                     "String() must equal StringSem (Str.tla) byte for byte (50-row and width truncation). Equals on pairs (both directions, self, rebuilt-with-New, results of the same "
+                     "operation on original and rebuilt) must equal EqualsSem.",
+                note=TV_NOTE + " strconv renderings of ints/floats/bools are logged references. No Go CSV/JSON parser is involved in the verdict.",
+                technique="TLA+ specifications of the observers (Csv.tla, JsonG.tla, Str.tla, Frame.tla EqualsSem) + TLC trace validation",
+                rule="random derived families; non-trivial = an observer/Equals/Rebuild event or an event re-observing earlier members; distinct by (operation, arguments, result digest)"),
+    "C12": dict(level="model_checking", nontrivial=nt_c12,
+                text="Random well-formed RFC 4180 documents (quoting optional, doubled quotes, delimiters/LF/CRLF inside quotes, LF or CRLF row ends, with/without final line break, several "
+                     "delimiters, fields crossing the 1 KiB scan buffer and its doublings, empty lines, short rows) x configurations (EmptyNull, IgnoreEmptyLines, Headers, Types/EnumValues incl. "
+                     "invalid ones, RenameDuplicateColumns, MissingColumnNameAlias, RowCountHint with >1000 rows) are read by the real ReadCSV under several read fragmentations each (whole, 1 byte, "
+                     "random sizes, boundaries swept across offsets 1010..1040, EOF with/after data); TLC computes Denote(doc) and CsvFrameSem (spec/Csv.tla) and requires the observed frame to equal it "
+                     "for every fragmentation.",
+                note=TV_NOTE + " strconv.Atoi/ParseFloat/ParseBool verdicts per field text are logged references (the property's own wording). CRLF inside quotes may denote CR LF or LF.",
+                technique="TLA+ specification of RFC 4180 + ReadCSV configuration semantics (Csv.tla) + TLC trace validation",
+                rule="random documents x configurations x read schedules; non-trivial = a ReadCSV event on a document of >4 bytes; distinct by (document, configuration, schedule, result digest)"),
+    "C13": dict(level="model_checking", nontrivial=nt_c13,
+                text="Frames however derived, with strings over arbitrary bytes except CR and floats over all exponent classes, subnormals, infinities, -0 and NaN, are written by the real ToCSV with every "
+                     "writer option and read back by the real ReadCSV with the frame's types (and enum values) declared, both EmptyNull settings, under random read fragmentations. TLC checks two laws: "
+                     "Denote(bytes written) = header + strconv texts of the cells (the writer against the grammar, no reader involved), and the frame read back = NullRule(original) with identical cells "
+                     "(bit-identical floats, NaN kept).",
+                note=TV_NOTE, technique="TLA+ specification (Csv.tla ToCsvOK, CsvFrameSem, NullRule) + TLC trace validation",
+                rule="random frames x writer options x EmptyNull x read schedules; non-trivial = a ToCSV event or a read-back event; distinct by (arguments, result digest)"),
+    "C14": dict(level="model_checking", nontrivial=nt_c14,
+                text="Frames with strings and column names over arbitrary bytes (control characters, quotes, backslashes, U+2028/2029, multi-byte and malformed UTF-8) and finite or NaN floats over all "
+                     "exponent classes are written by the real ToJSON; TLC recognises the bytes with the RFC 8259 automaton of spec/JsonG.tla (number and string grammar, UTF-8 validity), decodes them and "
+                     "requires one object per row in row order, keys = column names in column order, values = cells (ints and floats as the strconv text, NaN/null as null, strings byte-equal after "
+                     "decoding with invalid bytes as U+FFFD). The real ReadJSON of that output is compared with ReadJsonSem and with the round-trip law.",
+                note=TV_NOTE + " Float texts are compared with strconv.FormatFloat(f,'f',-1,64), the reference C16 names; C16 additionally judges them with ShortestDec.tla.",
+                technique="TLA+ byte-level JSON recogniser/decoder (JsonG.tla) + TLC trace validation",
+                rule="random frames with adversarial strings/names; non-trivial = a ToJSON/ReadJSON event with >2 bytes; distinct by (bytes digest)"),
     "C17": dict(level="model_checking", nontrivial=nt_c17,
                 text="Enum columns with declared tables of 1..255 values in random (non-alphabetical) order, 256 and 300 values (rejected), derived enums whose cardinality reaches 253..256 "
                      "and beyond, data over and outside the table, are built with New on the real library; every comparator against constants at ranks 0, 62..65, 126..129, 190..193, 253, 254 "
